@@ -8,7 +8,7 @@ from typing import Dict, List, Optional, Set
 from ..callgraph import all_nodes, get_cg
 from ..cfg import CFG, EXIT, RAISE
 from ..core import Ctx
-from ..flow import arg_of, call_name, get_flow
+from ..flow import arg_of, bound_args, call_name, get_flow
 from ..project import AnalysisError, FuncInfo, ancestors, dotted, parent, src
 
 LEVEL = 'other'
@@ -130,12 +130,14 @@ def r1(ctx: Ctx, run: FuncInfo, fl, loop) -> None:
             ok = 'key:config:_merchants_file' in a or 'name:new_file' in a
             ctx.check(ok, 'C11.R1', cm, f'wire:rules-path:{src(c.args[0])}', 'get_all_rules reads the configured merchants file', f'get_all_rules({src(c.args[0])}) does not read the configured file', c)
     # supplemental sources skipped, in both places
-    skips = [s for s in fl.cfg.stmts() if isinstance(s, ast.Continue) and any(a is loop for a in ancestors(s))
-             and any(t.startswith(f"{svar}.get('_supplemental'") and tr for t, tr in fl.cfg.guard_literals_within(s, loop))]
-    ctx.check(bool(skips), 'C11.R1', run, 'wire:supplemental-skip', 'supplemental sources generate no transactions', 'supplemental sources are parsed as transaction sources', loop)
+    # decided on the guards of the statement that collects / stores, so `if supplemental: continue` and `if not supplemental: <collect>` are the same
+    coll = [n for n in ast.walk(loop) if isinstance(n, ast.Call) and isinstance(n.func, ast.Attribute) and n.func.attr in ('extend', 'append') and src(n.func.value) == 'all_txns']
+    ok = bool(coll) and all(any(t.startswith(f"{svar}.get('_supplemental'") and not tr for t, tr in fl.cfg.guard_literals_within(fl.stmt_of(c), loop)) for c in coll)
+    ctx.check(ok, 'C11.R1', run, 'wire:supplemental-skip', 'supplemental sources generate no transactions', 'supplemental sources are parsed as transaction sources', loop)
     lsf = proj.func('config_loader.load_supplemental_sources')
-    ok = "if not source.get('_supplemental', False):\n    continue" in src(lsf.node).replace('            ', '    ').replace('        ', '') or \
-        any(isinstance(s, ast.If) and src(s.test) == "not source.get('_supplemental', False)" and isinstance(s.body[0], ast.Continue) for s in ast.walk(lsf.node))
+    lfl = get_flow(proj, lsf)
+    stores = [s for s in lfl.cfg.stmts() if isinstance(s, ast.Assign) and isinstance(s.targets[0], ast.Subscript) and src(s.targets[0].value) == 'data_sources']
+    ok = bool(stores) and all(any("get('_supplemental'" in t and tr for t, tr in lfl.cfg.guard_literals(st)) for st in stores)
     ctx.check(ok, 'C11.R1', lsf, 'wire:supplemental-only', 'only supplemental sources are loaded as query data', 'load_supplemental_sources does not filter on _supplemental')
     # views
     cb = fl.calls('classify_by_sections')
@@ -146,7 +148,7 @@ def r1(ctx: Ctx, run: FuncInfo, fl, loop) -> None:
     ctx.check(ok, 'C11.R1', run, 'wire:analyze', 'all parsed transactions are analysed', 'analyze_transactions does not receive all parsed transactions', an[0] if an else None)
     # outputs
     for c in fl.calls('write_summary_file_vue'):
-        kw = {k.arg: k.value for k in c.keywords}
+        kw = bound_args(proj, run, c)
         ok = 'currency_format' in kw and 'key:config:currency_format' in fl.atoms(kw['currency_format'], c) and 'year' in kw and 'key:config:year' in fl.atoms(kw['year'], c)
         ctx.check(ok, 'C11.R1', run, 'wire:html-format', 'currency_format and year -> HTML report', 'currency_format / year do not reach the HTML writer', c)
         a = fl.atoms(c.args[1], c) if len(c.args) > 1 else set()
@@ -154,7 +156,7 @@ def r1(ctx: Ctx, run: FuncInfo, fl, loop) -> None:
         ctx.check(ok, 'C11.R1', run, 'wire:output-path', 'output path = --output or output_dir/html_filename', f'output path derives from {sorted(x for x in a if x.startswith(("key:", "attr:")))}', c)
     for name in ('print_summary', 'print_sections_summary', 'export_markdown'):
         for c in fl.calls(name):
-            kw = {k.arg: k.value for k in c.keywords}
+            kw = bound_args(proj, run, c)
             ok = 'currency_format' in kw and 'key:config:currency_format' in fl.atoms(kw['currency_format'], c)
             ctx.check(ok, 'C11.R1', run, f'wire:currency:{name}', f'currency_format -> {name}', f'{name} is not given the configured currency_format', c)
     lcall = fl.calls('load_config')
@@ -199,15 +201,31 @@ def r3(ctx: Ctx, run, fl, loop) -> None:
             exits.append(n)
     ctx.check(not exits, 'C11.R3', run, 'no-exit', 'no return / raise / break / sys.exit inside the source loop',
               f'{src(exits[0])[:40] if exits else ""!r} inside the source loop: one bad source ends the whole run', exits[0] if exits else None)
-    tries = [s for s in loop.body if isinstance(s, ast.Try)]
-    if len(tries) != 1:
-        ctx.unknown('C11.R3', run, f'{len(tries)} try statements in the source loop')
-    t = tries[0]
     parse_calls = [n for n in ast.walk(loop) if isinstance(n, ast.Call) and call_name(n) in ('parse_generic_csv', 'parse_amex', 'parse_boa')]
-    ok = all(any(a is t for a in ancestors(c)) for c in parse_calls)
+    tries = [s for s in ast.walk(loop) if isinstance(s, ast.Try) and any(any(a is s for a in ancestors(c)) and any(c in ast.walk(x) for x in s.body) for c in parse_calls)]
+    if len(tries) != 1:
+        if parse_calls and not tries:
+            ctx.fail('C11.R3', run, 'parse-in-try', 'no parser call is inside a try: one unreadable file aborts the run', parse_calls[0])
+            return
+        ctx.unknown('C11.R3', run, f'{len(tries)} try statements around the parser calls in the source loop')
+    t = tries[0]
+    ok = all(any(a is t for a in ancestors(c)) and any(c in ast.walk(x) for x in t.body) for c in parse_calls)
     ctx.check(ok, 'C11.R3', run, 'parse-in-try', 'every parser call is inside the try', 'a parser call sits outside the try: its failure aborts the run')
+    ext = [n for n in ast.walk(loop) if isinstance(n, ast.Call) and isinstance(n.func, ast.Attribute) and n.func.attr in ('extend', 'append') and src(n.func.value) == 'all_txns']
+    if len(ext) != 1:
+        # R2 `collect` has reported the shape; fall back to whatever statement (re)binds the collection inside the loop
+        ext = ext or [n for n in ast.walk(loop) if isinstance(n, (ast.Assign, ast.AugAssign)) and 'all_txns' in {x.id for t in (n.targets if isinstance(n, ast.Assign) else [n.target]) for x in ast.walk(t) if isinstance(x, ast.Name)}]
+        if not ext:
+            ctx.need(False, 'C11.R3: no statement collects transactions (all_txns) in the source loop')
+            return
+    collect = fl.stmt_of(ext[0])
+    cfg = fl.cfg
+
+    def skips_source(st) -> bool:
+        """after st, this iteration never collects transactions (the source is skipped) and the loop goes on"""
+        return not cfg.same_iteration_reaches(loop, st, collect)
     broad = [h for h in t.handlers if h.type is None or src(h.type) in ('Exception', 'BaseException')]
-    ok = bool(broad) and isinstance(broad[0].body[-1], ast.Continue)
+    ok = bool(broad) and skips_source(broad[0].body[0])
     ctx.check(ok, 'C11.R3', run, 'handler', 'any parse failure -> continue with the next source', 'the parse handler is not a catch-all that continues', t)
     # reporting
     for label, pred in (('missing-file', lambda s: 'File not found' in src(s)), ('unknown-type', lambda s: 'Unknown parser type' in src(s)), ('parse-error', lambda s: 'Error parsing' in src(s))):
@@ -216,16 +234,13 @@ def r3(ctx: Ctx, run, fl, loop) -> None:
             ctx.fail('C11.R3', run, f'report:{label}', f'{label}: the source is skipped without telling the user', loop)
             continue
         st = fl.stmt_of(prints[0])
-        g = fl.cfg.guard_literals_within(st, loop)
+        g = cfg.guard_literals_within(st, loop)
         ok = ('args.quiet', False) in g
-        # followed by continue in the same arm
-        blk = parent(parent(st)) if isinstance(parent(st), ast.If) else parent(st)
-        nxt_continue = any(isinstance(x, ast.Continue) for x in ast.walk(blk)) if blk is not None else False
-        ctx.check(ok and nxt_continue, 'C11.R3', run, f'report:{label}', f'{label}: reported unless --quiet, then continue', f'{label}: message guarded by {sorted(g)} / no continue', prints[0])
-    # the missing-file skip
-    skips = [s for s in ast.walk(loop) if isinstance(s, ast.If) and src(s.test) == 'not os.path.exists(filepath)']
-    ok = bool(skips) and isinstance(skips[-1].body[-1], ast.Continue)
-    ctx.check(ok, 'C11.R3', run, 'missing-file-skip', 'a missing file skips only that source', 'missing file is not skipped with continue')
+        ctx.check(ok and skips_source(st), 'C11.R3', run, f'report:{label}', f'{label}: reported unless --quiet, then continue', f'{label}: message guarded by {sorted(g)} / the source is not skipped afterwards', prints[0])
+    # the missing-file skip: transactions are collected only for a file that exists
+    g = cfg.guard_literals_within(collect, loop)
+    ok = any(t_.startswith('os.path.exists(') and tr for t_, tr in g)
+    ctx.check(ok, 'C11.R3', run, 'missing-file-skip', 'a missing file skips only that source', 'a source whose file is missing is not skipped')
 
 
 def r4(ctx: Ctx) -> None:
